@@ -121,6 +121,13 @@ impl EntropyNormalizer {
         let mut normalized = vec![0u32; frequencies.len()];
         let mut remaining = target_total;
         
+        // Every present symbol needs at least one slot or it cannot be coded at all, so an
+        // allocation must leave one slot for each present symbol that has not been served yet.
+        let mut unserved = frequencies.iter().filter(|&&f| f > 0).count() as u32;
+        if unserved > target_total {
+            return Err(ZiporaError::invalid_data("More symbols than table slots"));
+        }
+        
         // First pass: allocate based on entropy contribution
         if self.adaptive_scaling && entropy > self.entropy_threshold {
             for (i, &freq) in frequencies.iter().enumerate() {
@@ -133,8 +140,9 @@ impl EntropyNormalizer {
                         ((freq as f64 * target_total as f64) / total_freq).round() as u32
                     };
                     
-                    normalized[i] = allocation.max(1).min(remaining);
-                    remaining = remaining.saturating_sub(normalized[i]);
+                    unserved -= 1;
+                    normalized[i] = allocation.max(1).min(remaining - unserved);
+                    remaining -= normalized[i];
                 }
             }
         } else {
@@ -142,8 +150,9 @@ impl EntropyNormalizer {
             for (i, &freq) in frequencies.iter().enumerate() {
                 if freq > 0 {
                     let allocation = ((freq as f64 * target_total as f64) / total_freq).round() as u32;
-                    normalized[i] = allocation.max(1).min(remaining);
-                    remaining = remaining.saturating_sub(normalized[i]);
+                    unserved -= 1;
+                    normalized[i] = allocation.max(1).min(remaining - unserved);
+                    remaining -= normalized[i];
                 }
             }
         }
@@ -486,11 +495,22 @@ impl FseTable {
         let mut normalized_freqs = vec![0u32; max_symbol as usize + 1];
         let mut remaining = table_size as u32;
         
+        // Leave one slot for every present symbol that has not been served yet: a present
+        // symbol with zero slots cannot be coded.
+        let mut unserved = frequencies.iter()
+            .take(max_symbol as usize + 1)
+            .filter(|&&f| f > 0)
+            .count() as u32;
+        if unserved > remaining {
+            return Err(ZiporaError::invalid_data("More symbols than table slots"));
+        }
+        
         for i in 0..=max_symbol as usize {
             if frequencies[i] > 0 {
                 let freq = ((frequencies[i] as u64 * table_size as u64) / total_freq) as u32;
-                normalized_freqs[i] = freq.max(1).min(remaining);
-                remaining = remaining.saturating_sub(normalized_freqs[i]);
+                unserved -= 1;
+                normalized_freqs[i] = freq.max(1).min(remaining - unserved);
+                remaining -= normalized_freqs[i];
             }
         }
         
@@ -919,11 +939,12 @@ impl FseEncoder {
                 }
                 current_state = new_state;
             } else {
-                println!("FSE encode[{}]: FALLBACK symbol={} ('{}'), state={}", 
-                    encode_count, symbol, symbol as char, current_state);
-                // Fallback: emit symbol directly with escape marker
-                output.push(0xFF); // Escape marker
-                output.push(symbol); // Literal symbol
+                // The decoder has no way to tell an escape marker from rANS payload bytes,
+                // so a symbol without a table entry (non-adaptive table built from other
+                // data) cannot be represented: refuse instead of corrupting the stream.
+                return Err(ZiporaError::invalid_data(format!(
+                    "Symbol {} is not in the FSE table", symbol
+                )));
             }
             encode_count += 1;
         }
